@@ -281,6 +281,20 @@ def run(ctx):
         # layered model: E_S and E_L are fitted, the layer thickness t is fixed at its true value
         kw = dict(model_key=mk, params_initial=p0, segment=seg, weight_cp=wcp, method=method,
                   range_x=(0, 0), range_type="absolute")
+        # "fitting that model" over the whole segment can be spelled in several ways: the default (0, 0), an
+        # explicit interval that covers all data, the same interval written (high, low) - accepted with a
+        # warning - and intervals relative to the estimated contact point (own random stream: the main stream
+        # of cases is not shifted)
+        spell = int(np.random.default_rng(ctx.seed * 31 + 7 * i).integers(0, 8))
+        tipv = np.asarray(idnt0["tip position"])
+        wide = (float(tipv.min()) - 2e-5, float(tipv.max()) + 2e-5)
+        range_spelling = {1: "explicit", 2: "inverted", 3: "relative", 4: "relative-inverted"}.get(spell, "default")
+        if range_spelling in ("explicit", "relative"):
+            kw["range_x"] = wide
+        elif range_spelling.endswith("inverted"):
+            kw["range_x"] = (wide[1], wide[0])
+        if range_spelling.startswith("relative"):
+            kw["range_type"] = "relative cp"
         idnt = copy.deepcopy(idnt0)
         refit = rng.random() < 0.3
         refit_kind = None
@@ -331,14 +345,15 @@ def run(ctx):
             fprops = idnt.fit_properties
             fitcurve = np.asarray(idnt["fit"]) if "fit" in idnt else None
         meta = {"model": mk, "segment": seg, "n": n_app, "noise_rel": rel_noise, "method": method,
-                "weight_cp": wcp, "refit": refit_kind, "jitter": jitter,
+                "weight_cp": wcp, "refit": refit_kind, "jitter": jitter, "range": range_spelling,
                 "entry": ("IndentationFitter(idnt, " + ", ".join(keys) + ")") if direct else "fit_model",
                 "truth": {k: float(truth[k].value) for k in truth},
                 "guess": {k: float(p0[k].value) for k in p0 if p0[k].vary}}
         ctx.case(meta, nontrivial=json.dumps(meta, sort_keys=True),
                  bucket=["model=" + mk, "method=" + method, f"noise={rel_noise}", f"segment={seg}",
                          f"weight={wcp}", "result=" + res, f"jitter={jitter}",
-                         "entry=" + ("fitter-class" if direct else "fit_model"), f"refit={refit_kind}"])
+                         "entry=" + ("fitter-class" if direct else "fit_model"), f"refit={refit_kind}",
+                         "range=" + range_spelling])
         rep = {"input": meta}
         tag = f"{mk}:{method}:noise={rel_noise}"
         if method not in ASSERTED:
